@@ -449,3 +449,293 @@ Qed.
 
 Lemma inv_run : forall h, inv (run h).
 Proof. intros h. apply (inv_run_from h init). exact inv_init. Qed.
+
+(* ------------------------------------------------------------------ *)
+(* garbage collection is exact                                          *)
+
+Lemma gc_exact_step : forall s older limit,
+  inv_ids s ->
+  let s' := step s (OGC older limit) in
+  let rem := gc_removed s older limit in
+  (forall f, In f (files s) -> (In f (files s') <-> ~ In f rem)) /\
+  (forall f, In f (files s') -> In f (files s)) /\
+  (forall f, In f rem ->
+     In f (files s) /\ linked (f_id f) (links s) = false /\ gc_older_ok older f = true) /\
+  ((limit <= 0)%Z -> forall f, In f (files s) -> linked (f_id f) (links s) = false ->
+     gc_older_ok older f = true -> In f rem) /\
+  ((0 < limit)%Z ->
+     length rem = Nat.min (Z.to_nat limit) (length (filter (gc_candidate s older) (files s)))) /\
+  (forall f, In f (files s) -> linked (f_id f) (links s) = true -> In f (files s')) /\
+  (forall f, In f rem ->
+     In (f_id f) (gc_deleted_locations s older limit) /\ ~ In (f_id f) (disk s')) /\
+  (forall d, In d (disk s) -> ~ In d (gc_deleted_locations s older limit) -> In d (disk s')) /\
+  links s' = links s /\ msgs s' = msgs s /\ topics s' = topics s /\ users s' = users s.
+Proof.
+  intros s older limit Hnd s' rem.
+  assert (Hsub := gc_removed_sub s older limit).
+  assert (Hiff : forall f, In f (files s) -> (In f (files s') <-> ~ In f rem)).
+  { intros f Hf. subst s'. cbn [step files]. rewrite filter_In. split.
+    - intros [_ Hk] Hin. apply negb_true_iff in Hk. apply memN_false in Hk. apply Hk.
+      apply in_map. exact Hin.
+    - intros Hn. split; [exact Hf|]. apply negb_true_iff. apply memN_false. intros Hin.
+      apply in_map_iff in Hin. destruct Hin as [g [Hg Hin]].
+      assert (g = f).
+      { apply (NoDup_map_inj file N f_id (files s)); try assumption.
+        apply (Hsub g Hin). }
+      subst g. exact (Hn Hin). }
+  split; [exact Hiff|].
+  split. { intros f Hf. subst s'. cbn [step files] in Hf. apply filter_In in Hf. tauto. }
+  split; [exact Hsub|].
+  split.
+  { intros Hl f Hf Hlk Ho. subst rem. unfold gc_removed.
+    assert (E : (0 <? limit)%Z = false) by (apply Z.ltb_ge; exact Hl). rewrite E.
+    apply filter_In. split; [exact Hf|]. unfold gc_candidate. rewrite Hlk. exact Ho. }
+  split.
+  { intros Hl. subst rem. unfold gc_removed.
+    assert (E : (0 <? limit)%Z = true) by (apply Z.ltb_lt; exact Hl). rewrite E.
+    apply firstn_length. }
+  split.
+  { intros f Hf Hlk. apply Hiff; [exact Hf|]. intros Hin. apply Hsub in Hin.
+    destruct Hin as [_ [Hl _]]. congruence. }
+  split.
+  { intros f Hf. split; [unfold gc_deleted_locations; apply in_map; exact Hf|].
+    subst s'. cbn [step disk]. rewrite filter_In. intros [_ Hk].
+    apply negb_true_iff in Hk. apply memN_false in Hk. apply Hk. apply in_map. exact Hf. }
+  split.
+  { intros d Hd Hn. subst s'. cbn [step disk]. apply filter_In. split; [exact Hd|].
+    apply negb_true_iff. apply memN_false. exact Hn. }
+  subst s'. cbn [step links msgs topics users]. repeat split; reflexivity.
+Qed.
+
+(* ------------------------------------------------------------------ *)
+(* links are kept while the parent exists                               *)
+
+Lemma run_app : forall h1 h2, run (h1 ++ h2) = run_from (run h1) h2.
+Proof. intros h1 h2. unfold run, run_from. apply fold_left_app. Qed.
+
+Lemma next_mid_mono_run : forall h s, (next_mid s <= next_mid (run_from s h))%N.
+Proof.
+  induction h as [|o h IH]; intros s; cbn [run_from fold_left]; [lia|].
+  pose proof (step_next_mid_mono s o). pose proof (IH (step s o)). unfold run_from in *. lia.
+Qed.
+
+Lemma live_msg_back : forall s o m,
+  (m < next_mid s)%N -> target_live (step s o) (TMsg m) = true -> target_live s (TMsg m) = true.
+Proof.
+  intros s o m Hm H. unfold target_live in *.
+  destruct o; cbn [step] in H.
+  - destruct (_ || _); exact H.
+  - destruct (find_file fid (files s)) as [g|]; [|exact H].
+    destruct (f_done g); [exact H|]. destruct ok; exact H.
+  - destruct (memN t (topics s)); exact H.
+  - destruct (memN u (users s)); exact H.
+  - destruct (memN topic (topics s)); [|exact H]. cbn [msgs map fst] in H.
+    rewrite memN_cons in H. apply orb_true_iff in H. destruct H as [H|H]; [|exact H].
+    apply N.eqb_eq in H. lia.
+  - rewrite link_single_msgs in H. exact H.
+  - rewrite link_single_msgs in H. exact H.
+  - cbn [msgs] in H. apply memN_In. apply memN_In in H.
+    apply in_map_iff in H. destruct H as [x [Hx Hin]]. apply filter_In in Hin.
+    apply in_map_iff. exists x. tauto.
+  - cbn [msgs] in H. apply memN_In. apply memN_In in H.
+    apply in_map_iff in H. destruct H as [x [Hx Hin]]. apply filter_In in Hin.
+    apply in_map_iff. exists x. tauto.
+  - exact H.
+  - exact H.
+Qed.
+
+Lemma live_back_run : forall h s m,
+  (m < next_mid s)%N -> target_live (run_from s h) (TMsg m) = true -> target_live s (TMsg m) = true.
+Proof.
+  induction h as [|o h IH]; intros s m Hm H; cbn [run_from fold_left] in H; [exact H|].
+  apply (live_msg_back s o m Hm). apply IH; [|exact H].
+  pose proof (step_next_mid_mono s o). lia.
+Qed.
+
+Lemma link_single_att_keep : forall s tg fids f t,
+  target_eqb t tg = false -> In (f, t) (att s) -> In (f, t) (att (link_single s tg fids)).
+Proof.
+  intros s tg fids f t He Hin. unfold link_single. destruct fids as [|f0 r]; [exact Hin|].
+  destruct (_ && _); [|exact Hin]. cbn [att]. apply in_app_iff. left.
+  apply filter_In. split; [exact Hin|]. cbn [snd]. rewrite He. reflexivity.
+Qed.
+
+Lemma drop_keep : forall gone f t ls,
+  gone t = false -> In (f, t) ls -> In (f, t) (drop_target gone ls).
+Proof.
+  intros gone f t ls Hg Hin. unfold drop_target. apply filter_In. split; [exact Hin|].
+  cbn [snd]. rewrite Hg. reflexivity.
+Qed.
+
+Lemma att_persist_msg : forall s o f m,
+  inv_msgs s -> In (f, TMsg m) (att s) -> target_live (step s o) (TMsg m) = true ->
+  In (f, TMsg m) (att (step s o)).
+Proof.
+  intros s o f m [Hnd _] Hin Hl. unfold target_live in Hl.
+  destruct o; cbn [step] in *.
+  - destruct (_ || _); exact Hin.
+  - destruct (find_file fid (files s)) as [g|]; [|exact Hin].
+    destruct (f_done g); [exact Hin|]. destruct ok; exact Hin.
+  - destruct (memN t (topics s)); exact Hin.
+  - destruct (memN u (users s)); exact Hin.
+  - destruct (memN topic (topics s)); [|exact Hin]. cbn [att]. apply in_app_iff. left. exact Hin.
+  - apply link_single_att_keep; [reflexivity|exact Hin].
+  - apply link_single_att_keep; [reflexivity|exact Hin].
+  - cbn [att msgs] in *. apply drop_keep; [|exact Hin].
+    apply memN_In in Hl.
+    apply (in_map_filter (N * N) fst (fun x => negb (memN x mids))) in Hl.
+    destruct Hl as [_ Hl]. apply negb_true_iff in Hl. exact Hl.
+  - cbn [att msgs] in *. apply drop_keep; [|exact Hin].
+    apply memN_In in Hl. apply in_map_iff in Hl. destruct Hl as [y [Hy Hyin]].
+    apply filter_In in Hyin. destruct Hyin as [Hyin Hyt].
+    unfold msg_topic.
+    assert (Hm : In m (map fst (msgs s))) by (apply in_map_iff; exists y; split; assumption).
+    destruct (in_fst_find m (msgs s) Hm) as [y' [Hf [Hy' Hm']]]. rewrite Hf.
+    assert (y' = y).
+    { apply (NoDup_map_inj (N * N) N fst (msgs s)); try assumption. congruence. }
+    subst y'. apply negb_true_iff in Hyt. exact Hyt.
+  - cbn [att]. apply drop_keep; [reflexivity|exact Hin].
+  - exact Hin.
+Qed.
+
+Lemma msg_link_persists : forall h s f m,
+  inv s -> (m < next_mid s)%N -> In (f, TMsg m) (att s) ->
+  target_live (run_from s h) (TMsg m) = true -> In (f, TMsg m) (att (run_from s h)).
+Proof.
+  induction h as [|o h IH]; intros s f m Hinv Hm Hin Hl; cbn [run_from fold_left] in *; [exact Hin|].
+  assert (Hm' : (m < next_mid (step s o))%N) by (pose proof (step_next_mid_mono s o); lia).
+  apply IH; try assumption.
+  - apply inv_step. exact Hinv.
+  - destruct Hinv as [_ [_ [Hmsgs _]]]. apply att_persist_msg; try assumption.
+    apply (live_back_run h (step s o) m Hm'). exact Hl.
+Qed.
+
+Lemma att_stored : forall s f t, inv s -> In (f, t) (att s) ->
+  In (f, t) (links s) /\ In f (file_ids s) /\ In f (disk s) /\ is_done f (files s) = true.
+Proof.
+  intros s f t [_ [Hdisk [_ [Hlinks Hatt]]]] Hin.
+  destruct (Hatt f t Hin) as [H1 H2]. destruct (Hlinks f t H1) as [H3 _].
+  split; [exact H1|]. split; [exact H3|]. split; [apply Hdisk; exact H3|exact H2].
+Qed.
+
+Lemma publish_att : forall s topic fids f,
+  memN topic (topics s) = true -> forallb (fun x => memN x (file_ids s)) fids = true ->
+  In f fids -> is_done f (files s) = true ->
+  In (f, TMsg (next_mid s)) (att (step s (OPublish topic fids))) /\
+  next_mid (step s (OPublish topic fids)) = N.succ (next_mid s).
+Proof.
+  intros s topic fids f Ht Hall Hin Hd. cbn [step]. rewrite Ht. cbv zeta. cbn [att next_mid].
+  split; [|reflexivity]. apply in_app_iff. right.
+  destruct fids as [|a r]; [destruct Hin|]. rewrite Hall.
+  apply in_map_iff. exists f. split; [reflexivity|]. apply filter_In. split; assumption.
+Qed.
+
+Lemma linked_msg : forall h1 topic fids h2 f,
+  let s1 := run h1 in
+  memN topic (topics s1) = true ->
+  forallb (fun x => memN x (file_ids s1)) fids = true ->
+  In f fids -> is_done f (files s1) = true ->
+  let mid := next_mid s1 in
+  let s2 := run (h1 ++ OPublish topic fids :: h2) in
+  target_live s2 (TMsg mid) = true ->
+  In (f, TMsg mid) (links s2) /\ In f (file_ids s2) /\ In f (disk s2) /\ is_done f (files s2) = true.
+Proof.
+  intros h1 topic fids h2 f s1 Ht Hall Hin Hd mid s2 Hl.
+  assert (Hs2 : s2 = run_from (step s1 (OPublish topic fids)) h2).
+  { subst s2 s1. rewrite run_app. reflexivity. }
+  destruct (publish_att s1 topic fids f Ht Hall Hin Hd) as [Hatt Hnext].
+  assert (Hinv1 : inv (step s1 (OPublish topic fids))) by (apply inv_step; apply inv_run).
+  rewrite Hs2 in *.
+  apply att_stored; [apply inv_run_from; exact Hinv1|].
+  apply msg_link_persists; try assumption. rewrite Hnext. subst mid. lia.
+Qed.
+
+(* an accepted publish whose list names a missing upload links nothing *)
+Lemma publish_missing_links_nothing : forall s topic fids,
+  forallb (fun x => memN x (file_ids s)) fids = false ->
+  links (step s (OPublish topic fids)) = links s.
+Proof.
+  intros s topic fids H. cbn [step]. destruct (memN topic (topics s)); [|reflexivity].
+  cbv zeta. cbn [links]. destruct fids as [|a r]; [apply app_nil_r|]. rewrite H. apply app_nil_r.
+Qed.
+
+(* ---- avatars ---- *)
+Lemma avatar_persist : forall s o f tg,
+  match tg with TMsg _ => False | _ => True end ->
+  avatar_kept tg o = true -> In (f, tg) (att s) -> In (f, tg) (att (step s o)).
+Proof.
+  intros s o f tg Htg Hk Hin.
+  destruct o; cbn [step].
+  - destruct (_ || _); exact Hin.
+  - destruct (find_file fid (files s)) as [g|]; [|exact Hin].
+    destruct (f_done g); [exact Hin|]. destruct ok; exact Hin.
+  - destruct (memN t (topics s)); exact Hin.
+  - destruct (memN u (users s)); exact Hin.
+  - destruct (memN topic (topics s)); [|exact Hin]. cbn [att]. apply in_app_iff. left. exact Hin.
+  - apply link_single_att_keep; [|exact Hin].
+    destruct tg as [m|x|x]; cbn [target_eqb avatar_kept] in *; try reflexivity.
+    apply negb_true_iff in Hk. rewrite N.eqb_sym. exact Hk.
+  - apply link_single_att_keep; [|exact Hin].
+    destruct tg as [m|x|x]; cbn [target_eqb avatar_kept] in *; try reflexivity.
+    apply negb_true_iff in Hk. rewrite N.eqb_sym. exact Hk.
+  - cbn [att]. apply drop_keep; [|exact Hin]. destruct tg; [destruct Htg|reflexivity|reflexivity].
+  - cbn [att]. apply drop_keep; [|exact Hin].
+    destruct tg as [m|x|x]; cbn [avatar_kept] in *; [destruct Htg| |reflexivity].
+    apply negb_true_iff in Hk. rewrite N.eqb_sym. exact Hk.
+  - cbn [att]. apply drop_keep; [|exact Hin].
+    destruct tg as [m|x|x]; cbn [avatar_kept] in *; [destruct Htg|reflexivity|].
+    apply negb_true_iff in Hk. rewrite N.eqb_sym. exact Hk.
+  - exact Hin.
+Qed.
+
+Lemma avatar_persists_run : forall h s f tg,
+  match tg with TMsg _ => False | _ => True end ->
+  forallb (avatar_kept tg) h = true -> In (f, tg) (att s) -> In (f, tg) (att (run_from s h)).
+Proof.
+  induction h as [|o h IH]; intros s f tg Htg Hk Hin; cbn [run_from fold_left]; [exact Hin|].
+  cbn [forallb] in Hk. apply andb_true_iff in Hk. destruct Hk as [Hk1 Hk2].
+  apply IH; try assumption. apply avatar_persist; assumption.
+Qed.
+
+Lemma link_single_att : forall s tg f rest,
+  memN f (file_ids s) = true -> target_live s tg = true -> is_done f (files s) = true ->
+  In (f, tg) (att (link_single s tg (f :: rest))).
+Proof.
+  intros s tg f rest H1 H2 H3. unfold link_single. rewrite H1, H2. cbn [andb att].
+  rewrite H3. apply in_app_iff. right. left. reflexivity.
+Qed.
+
+Lemma linked_avatar : forall h1 tg f rest h2,
+  match tg with TMsg _ => False | _ => True end ->
+  let s1 := run h1 in
+  memN f (file_ids s1) = true -> target_live s1 tg = true -> is_done f (files s1) = true ->
+  forallb (avatar_kept tg) h2 = true ->
+  let s2 := run_from (link_single s1 tg (f :: rest)) h2 in
+  In (f, tg) (links s2) /\ In f (file_ids s2) /\ In f (disk s2) /\ is_done f (files s2) = true.
+Proof.
+  intros h1 tg f rest h2 Htg s1 H1 H2 H3 Hk s2.
+  assert (Hinv : inv (link_single s1 tg (f :: rest))).
+  { destruct tg as [m|t|u]; [destruct Htg| |].
+    - exact (inv_step s1 (OTopicAvatar t (f :: rest)) (inv_run h1)).
+    - exact (inv_step s1 (OUserAvatar u (f :: rest)) (inv_run h1)). }
+  apply att_stored; [apply inv_run_from; exact Hinv|].
+  apply avatar_persists_run; try assumption. apply link_single_att; assumption.
+Qed.
+
+(* an avatar update whose first resolvable id names no record changes nothing (rolled back) *)
+Lemma avatar_missing_keeps : forall s tg f rest,
+  memN f (file_ids s) = false -> link_single s tg (f :: rest) = s.
+Proof. intros s tg f rest H. unfold link_single. rewrite H. reflexivity. Qed.
+
+(* ---- download ---- *)
+Lemma download_names_record : forall s serve url f,
+  download s serve url = Some f ->
+  get_id_from_url serve url = f_id f /\ f_id f <> 0%N /\ In f (files s) /\ In (f_id f) (disk s).
+Proof.
+  intros s serve url f H. unfold download in H.
+  destruct (get_id_from_url serve url =? 0)%N eqn:Ez; [discriminate|].
+  destruct (find_file (get_id_from_url serve url) (files s)) as [g|] eqn:Eg; [|discriminate].
+  destruct (memN (get_id_from_url serve url) (disk s)) eqn:Ed; [|discriminate].
+  inversion H; subst g. apply find_file_in in Eg. destruct Eg as [Hin Hid].
+  apply N.eqb_neq in Ez. apply memN_In in Ed. rewrite Hid in *. repeat split; assumption.
+Qed.
